@@ -823,6 +823,9 @@ func (x *Exec) evalBinary(e *cfront.Node, st *State) []res {
 				}
 				aa, bb := a, b
 				nv.Cond = &CondV{Op: op, A: &aa, B: &bb}
+				if (op == "==" || op == "!=") && a.K == VInt && b.K == VInt && (a.Comp != nil || b.Comp != nil) {
+					x.event(s, Event{Kind: "cmp", Node: e, Args: []Val{a, b}})
+				}
 				// decide when possible
 				if t1 := x.assume(s.clone(), nv, true); t1 == nil {
 					nv = constVal(0, 4, true)
